@@ -1,8 +1,11 @@
 //! C07 — value assignments and DEFAULTs denote the source abstract value.
 use crate::common::*;
 use crate::driver::*;
+use crate::wire::{apply_tag, der_int, from_hex, parse_tlv, run_wire, tlv, to_hex, WireCase, WireOutcome};
 use serde::{Deserialize, Serialize};
-use std::collections::BTreeMap;
+use std::collections::{BTreeMap, HashMap};
+use std::sync::atomic::{AtomicBool, Ordering};
+use std::sync::{Mutex, OnceLock};
 
 pub struct C07;
 
@@ -308,13 +311,240 @@ fn bits_to_octets(b: &[bool]) -> Vec<u8> {
     b.chunks(8).map(|c| c.iter().enumerate().fold(0u8, |acc, (i, x)| acc | ((*x as u8) << (7 - i)))).collect()
 }
 
+// ------------------------------------------------------------------------------------------------ wire level
+// The generated constant (or the default of the generated Holder) is encoded by rasn's DER codec; the bytes
+// must equal the X.690 encoding of the abstract value the ASN.1 source denotes (all helper types live in an
+// AUTOMATIC TAGS module: components / alternatives carry context tags by position, explicit around CHOICE).
+
+fn string_tag(ty: &str) -> Option<u32> {
+    Some(match ty {
+        "UTF8String" => 12,
+        "NumericString" => 18,
+        "PrintableString" => 19,
+        "TeletexString" | "T61String" => 20,
+        "IA5String" => 22,
+        "GraphicString" => 25,
+        "VisibleString" => 26,
+        "GeneralString" => 27,
+        "UniversalString" => 28,
+        "BMPString" => 30,
+        _ => return None,
+    })
+}
+
+fn der_bits(bits: &[bool]) -> Vec<u8> {
+    let mut content = vec![((8 - bits.len() % 8) % 8) as u8];
+    content.extend(bits_to_octets(bits));
+    tlv(0, false, 3, &content)
+}
+
+fn der_oid(arcs: &[u32]) -> Option<Vec<u8>> {
+    if arcs.len() < 2 {
+        return None;
+    }
+    let mut content = vec![];
+    let mut push = |mut n: u64| {
+        let mut stack = vec![(n & 0x7f) as u8];
+        n >>= 7;
+        while n > 0 {
+            stack.push(((n & 0x7f) as u8) | 0x80);
+            n >>= 7;
+        }
+        stack.reverse();
+        content.extend(stack);
+    };
+    push(arcs[0] as u64 * 40 + arcs[1] as u64);
+    for a in &arcs[2..] {
+        push(*a as u64);
+    }
+    Some(tlv(0, false, 6, &content))
+}
+
+/// X.690 encoding of `v` as a value of the (helper) type named `ty`
+pub fn der_value(v: &Val, ty: &str) -> Option<Vec<u8>> {
+    let base = ty.split(" (").next().unwrap_or(ty).trim();
+    Some(match (v, base) {
+        (Val::Int(s), _) => tlv(0, false, 2, &der_int(s.parse::<i128>().ok()?)),
+        (Val::Bool(b), _) => vec![1, 1, if *b { 0xff } else { 0 }],
+        (Val::Null, _) => vec![5, 0],
+        (Val::Enum(e), "Enu") => {
+            let n = match e.rsplit("::").next()? {
+                // X.680 20.3: identifier-only items take 0, 1, ... skipping the numbers used explicitly
+                "x" => 0,
+                "y" => 7,
+                "z_z" => 1,
+                _ => return None,
+            };
+            tlv(0, false, 10, &der_int(n))
+        }
+        (Val::Str(st), t) => {
+            let tag = string_tag(t)?;
+            let content: Vec<u8> = match t {
+                "BMPString" => st.encode_utf16().flat_map(|u| u.to_be_bytes()).collect(),
+                "UniversalString" => st.chars().flat_map(|c| (c as u32).to_be_bytes()).collect(),
+                _ => st.as_bytes().to_vec(),
+            };
+            tlv(0, false, tag, &content)
+        }
+        (Val::Bits(b), _) => der_bits(b),
+        (Val::NamedBits(b), _) => {
+            let mut t = b.clone();
+            while t.last() == Some(&false) {
+                t.pop();
+            }
+            der_bits(&t)
+        }
+        (Val::Octets(o), _) => tlv(0, false, 4, o),
+        (Val::Oid(a), _) => der_oid(a)?,
+        (Val::Choice(alt, inner), "Cho") => match alt.as_str() {
+            "n" => apply_tag(&der_value(inner, "INTEGER")?, 2, 0, false),
+            "b" => apply_tag(&der_value(inner, "BOOLEAN")?, 2, 1, false),
+            "c" => apply_tag(&der_value(inner, "Cho2")?, 2, 2, true),
+            _ => return None,
+        },
+        (Val::Choice(alt, inner), "Cho2") => match alt.as_str() {
+            "z" => apply_tag(&der_value(inner, "NULL")?, 2, 0, false),
+            "m" => apply_tag(&der_value(inner, "INTEGER")?, 2, 1, false),
+            _ => return None,
+        },
+        (Val::Seq(ms), "Sq") if ms.len() == 3 => {
+            let mut c = apply_tag(&der_value(&ms[0], "INTEGER")?, 2, 0, false);
+            c.extend(apply_tag(&der_value(&ms[1], "BOOLEAN")?, 2, 1, false));
+            c.extend(apply_tag(&der_value(&ms[2], "Cho2")?, 2, 2, true));
+            tlv(0, true, 16, &c)
+        }
+        (Val::List(es), t) => {
+            let et = match t {
+                "Lst" => "INTEGER",
+                "LstB" | "SEQUENCE OF BOOLEAN" => "BOOLEAN",
+                _ => return None,
+            };
+            let mut c = vec![];
+            for e in es {
+                c.extend(der_value(e, et)?);
+            }
+            tlv(0, true, 16, &c)
+        }
+        _ => return None,
+    })
+}
+
+/// do the bytes produced by the bindings denote the expected value?
+fn wire_same(exp: &Val, reference: &[u8], got: &[u8]) -> bool {
+    if reference == got {
+        return true;
+    }
+    if let Val::NamedBits(_) = exp {
+        // trailing zero bits of a named-bit value are not significant (X.680 22.7); rasn does not trim them
+        let bits = |b: &[u8]| -> Option<Vec<bool>> {
+            let (class, _, num, content, total) = parse_tlv(b)?;
+            if class != 0 || num != 3 || total != b.len() || content.is_empty() {
+                return None;
+            }
+            let unused = content[0] as usize;
+            let mut v: Vec<bool> = content[1..].iter().flat_map(|o| (0..8).rev().map(move |k| o & (1 << k) != 0)).collect();
+            v.truncate(v.len().saturating_sub(unused));
+            while v.last() == Some(&false) {
+                v.pop();
+            }
+            Some(v)
+        };
+        return bits(reference).is_some() && bits(reference) == bits(got);
+    }
+    false
+}
+
+fn wire_results() -> &'static Mutex<HashMap<u64, Result<String, String>>> {
+    static R: OnceLock<Mutex<HashMap<u64, Result<String, String>>>> = OnceLock::new();
+    R.get_or_init(|| Mutex::new(HashMap::new()))
+}
+static WIRE_BATCH_DONE: AtomicBool = AtomicBool::new(false);
+
+fn wire_batch(cases: &[Case]) -> Result<(), String> {
+    use rayon::prelude::*;
+    let gens: Vec<(u64, Option<(String, String)>)> = cases
+        .par_iter()
+        .map(|c| {
+            let src = text(c);
+            let h = fnv(&src);
+            if der_value(&c.expected, &c.ty).is_none() {
+                return (h, None);
+            }
+            let g = match compile1(&src) {
+                Outcome::Ok { generated, warnings } if warnings.is_empty() => generated,
+                _ => return (h, None),
+            };
+            let file: syn::File = match syn::parse_file(&g) {
+                Ok(f) => f,
+                Err(_) => return (h, None),
+            };
+            // how the value is reached from the test function
+            let expr = if c.route.starts_with("default") {
+                if find_fn_body(&file, "holder_f_default").is_none() {
+                    return (h, None);
+                }
+                "&m::Holder::default().f".to_string()
+            } else {
+                let mut e = None;
+                for it in items_of(&file) {
+                    match it {
+                        syn::Item::Const(k) if k.ident == "VAL" => e = Some("&m::VAL".to_string()),
+                        syn::Item::Static(k) if k.ident == "VAL" => e = Some("&*m::VAL".to_string()),
+                        _ => {}
+                    }
+                }
+                match e {
+                    Some(e) => e,
+                    None => return (h, None),
+                }
+            };
+            (h, Some((g, format!("    wsupport::enc({expr})"))))
+        })
+        .collect();
+    let mut wcs = vec![];
+    let mut idx_of: HashMap<usize, u64> = HashMap::new();
+    let mut seen = std::collections::HashSet::new();
+    for (i, (h, g)) in gens.into_iter().enumerate() {
+        if let Some((g, body)) = g {
+            if wire_results().lock().unwrap().contains_key(&h) || !seen.insert(h) {
+                continue;
+            }
+            wcs.push(WireCase { idx: i, generated: g, test_body: body });
+            idx_of.insert(i, h);
+        }
+    }
+    if wcs.is_empty() {
+        return Ok(());
+    }
+    let res = run_wire(&wcs)?;
+    let mut map = wire_results().lock().unwrap();
+    for (i, h) in idx_of {
+        match res.get(&i) {
+            Some(WireOutcome::Ran(s)) => {
+                map.insert(h, Ok(s.clone()));
+            }
+            Some(WireOutcome::CompileError(e)) => {
+                map.insert(h, Err(e.clone()));
+            }
+            None => return Err(format!("no wire result for case {i}")),
+        }
+    }
+    Ok(())
+}
+
+/// wire subset: every notation and value on the direct route; one representative per (notation, feature) on the others
+fn wire_subset(cases: &[Case], thorough: bool) -> Vec<Case> {
+    let mut seen = std::collections::BTreeSet::new();
+    cases.iter().filter(|c| thorough || c.route == "assign" || seen.insert((c.notation.clone(), c.feature.clone(), c.route.clone()))).cloned().collect()
+}
+
 impl Prop for C07 {
     type Case = Case;
     fn id(&self) -> &'static str {
         "C07"
     }
     fn rule(&self) -> String {
-        "per value notation, complete inside: integers = the 53-point boundary set ∪ {±2^127 ends} (typed INTEGER, a fitting constrained INTEGER, a named-number type); TRUE/FALSE; NULL; cstrings = all strings of length <=2 over {a, space, \"\" (escaped quote), é, €} restricted to each of the 11 string types' alphabets plus a 40-character string; bstrings = all of length 0..8 (BIT STRING) and all byte-multiples (OCTET STRING); hstrings = all of 0..2 digits, every digit at every position of a 4-digit string, the 64 walking-one patterns; named-bit lists = all 32 subsets of {b0,b1,b3,b7,b15}; named numbers, enumerals; OIDs of 2..4 arcs with every arc form (number, every X.660 well-known name under its root, name(number), leading value reference); CHOICE / SEQUENCE / SEQUENCE OF values to depth 2; each × route {value assignment, through two type references, via a value reference, DEFAULT, DEFAULT via value reference}. Oracle: a symbolic evaluator of the expression forms the templates emit reduces the initialiser (const, LazyLock static, default fn body) to an abstract value compared with the model's (bit strings from named bits modulo trailing zeros). Non-trivial: compiled cleanly and the initialiser was evaluated.".into()
+        "(symbolic level + wire level: every value on the direct route and one representative per notation x feature on the other routes (thorough: all) is compiled into the wirecheck workspace, the generated constant / Holder default is encoded by rasn's DER codec and the bytes are compared with the X.690 encoding of the source value computed by a 100-line reference encoder) per value notation, complete inside: integers = the 53-point boundary set ∪ {±2^127 ends} (typed INTEGER, a fitting constrained INTEGER, a named-number type); TRUE/FALSE; NULL; cstrings = all strings of length <=2 over {a, space, \"\" (escaped quote), é, €} restricted to each of the 11 string types' alphabets plus a 40-character string; bstrings = all of length 0..8 (BIT STRING) and all byte-multiples (OCTET STRING); hstrings = all of 0..2 digits, every digit at every position of a 4-digit string, the 64 walking-one patterns; named-bit lists = all 32 subsets of {b0,b1,b3,b7,b15}; named numbers, enumerals; OIDs of 2..4 arcs with every arc form (number, every X.660 well-known name under its root, name(number), leading value reference); CHOICE / SEQUENCE / SEQUENCE OF values to depth 2; each × route {value assignment, through two type references, via a value reference, DEFAULT, DEFAULT via value reference}. Oracle: a symbolic evaluator of the expression forms the templates emit reduces the initialiser (const, LazyLock static, default fn body) to an abstract value compared with the model's (bit strings from named bits modulo trailing zeros). Non-trivial: compiled cleanly and the initialiser was evaluated.".into()
     }
     fn selftest(&self) -> Result<u64, String> {
         let f: syn::File = syn::parse_str("pub mod m { pub const A: u8 = 5; pub static O1: LazyLock<ObjectIdentifier> = LazyLock::new(|| Oid::const_new(&[1u32, 2u32]).to_owned()); pub static O3: LazyLock<ObjectIdentifier> = LazyLock::new(|| Oid::new(&[&***O1, &[7u32]].concat()).unwrap().to_owned()); pub static B: LazyLock<BitString> = LazyLock::new(|| [true, false].into_iter().collect()); pub static X: LazyLock<OctetString> = LazyLock::new(|| <OctetString as From<&'static [u8]>>::from(&[175, 9])); pub const C3: C = C::c(C2::z(())); pub static I: LazyLock<T2> = LazyLock::new(|| T2(T1(Integer::from(-2i128)))); }").map_err(|e| e.to_string())?;
@@ -333,7 +563,21 @@ impl Prop for C07 {
         if hex_bits("A5") != vec![true, false, true, false, false, true, false, true] || bits_to_octets(&hex_bits("AF09")) != vec![0xAF, 0x09] {
             return Err("hex tables".into());
         }
-        Ok(8)
+        // reference DER of hand-computed values (X.690 8.3, 8.6, 8.19, 8.23; AUTOMATIC TAGS for the helper types)
+        crate::wire::selftest()?;
+        let d = |v: Val, t: &str| der_value(&v, t).map(|b| to_hex(&b)).unwrap_or_default();
+        if d(Val::Int("-129".into()), "INTEGER") != "0202ff7f"
+            || d(Val::Oid(vec![1, 2, 840, 113549]), "OBJECT IDENTIFIER") != "06062a864886f70d"
+            || d(Val::Oid(vec![2, 999, 3]), "OBJECT IDENTIFIER") != "0603883703"
+            || d(Val::Bits(vec![true, false, true]), "BIT STRING") != "030205a0"
+            || d(Val::Str("a\u{e9}".into()), "BMPString") != "1e04006100e9"
+            || d(Val::Choice("c".into(), Box::new(Val::Choice("m".into(), Box::new(Val::Int("7".into()))))), "Cho") != "a203810107"
+            || d(Val::Seq(vec![Val::Int("1".into()), Val::Bool(true), Val::Choice("z".into(), Box::new(Val::Null))]), "Sq") != "300a8001018101ffa2028000"
+            || d(Val::Enum("Enu::z_z".into()), "Enu") != "0a0101"
+        {
+            return Err("reference DER".into());
+        }
+        Ok(16)
     }
     fn enumerate(&self, tier: Tier, _seed: u64) -> Vec<Case> {
         let mut base: Vec<Case> = vec![];
@@ -519,6 +763,11 @@ impl Prop for C07 {
                 out.push(c2);
             }
         }
+        if let Err(e) = wire_batch(&wire_subset(&out, tier.thorough())) {
+            eprintln!("MACHINERY: {e}");
+            std::process::exit(2);
+        }
+        WIRE_BATCH_DONE.store(true, Ordering::SeqCst);
         out
     }
     fn check(&self, c: &Case) -> CaseResult {
@@ -550,6 +799,31 @@ impl Prop for C07 {
             }
         }
         let _ = BTreeMap::<u8, u8>::new();
-        CaseResult { discs, nontrivial: true, outcome: format!("ok:{}:{}", c.notation.split(':').next().unwrap_or(""), c.route), skipped: None }
+        // ---- wire level
+        let h = fnv(&src);
+        let mut wr = wire_results().lock().unwrap().get(&h).cloned();
+        if wr.is_none() && !WIRE_BATCH_DONE.load(Ordering::SeqCst) {
+            if let Err(e) = wire_batch(std::slice::from_ref(c)) {
+                return CaseResult { discs: vec![Disc::new("value|wire|machinery".to_string(), e)], nontrivial: false, outcome: "machinery".into(), skipped: None };
+            }
+            wr = wire_results().lock().unwrap().get(&h).cloned();
+        }
+        let mut wired = "";
+        if let (Some(wr), Some(reference)) = (wr, der_value(&c.expected, &c.ty)) {
+            match wr {
+                // bindings that do not type-check are C01's subject (listed there); nothing can be run
+                Err(_) => wired = "+wire:not-compilable",
+                Ok(line) => {
+                    wired = "+wire";
+                    let got = line.strip_prefix("hex:").and_then(from_hex);
+                    match got {
+                        Some(g) if wire_same(&c.expected, &reference, &g) => {}
+                        Some(g) => discs.push(Disc::new(format!("{kb}|kind=wire-value"), format!("rasn DER of the generated value: {}\nX.690 encoding of the source value: {}\n{src}\n{gen}", to_hex(&g), to_hex(&reference)))),
+                        None => discs.push(Disc::new(format!("{kb}|kind=wire-{}", line.split(':').next().unwrap_or("error")), format!("{line}\n{src}\n{gen}"))),
+                    }
+                }
+            }
+        }
+        CaseResult { discs, nontrivial: true, outcome: format!("ok:{}:{}{wired}", c.notation.split(':').next().unwrap_or(""), c.route), skipped: None }
     }
 }
